@@ -7,6 +7,7 @@ import (
 	"fmt"
 	"io/fs"
 	"log/slog"
+	"net/url"
 	"path/filepath"
 	"regexp"
 	"slices"
@@ -355,6 +356,9 @@ type PrometheusQuery struct {
 }
 
 func (pq PrometheusQuery) validate() (err error) {
+	if _, err = url.Parse(pq.URI); err != nil {
+		return fmt.Errorf("prometheusQuery URI %q is invalid: %w", pq.URI, err)
+	}
 	if pq.Timeout != "" {
 		if _, err = parseDuration(pq.Timeout); err != nil {
 			return err
